@@ -318,3 +318,63 @@ ob_e2(
     bounds="unbounded length; language inclusion in the NUMBER rule and emptiness of the intersection with every higher-priority rule followed by anything (so the literal is one NUMBER token and the default stays static); Python's ordered choice between the alternatives inside the NUMBER rule is checked on solver-generated samples only",
     weight=10,
 )
+
+
+# ---- f: typed defaults with the real classifier (round 3) -------------------------------------------
+F_TYPES = ["date", "dateTime", "datetime", "geopoint", "gps", "location", "geotrace", "geoshape", "time", "text", "integer", "decimal"]
+F_DEFAULTS = ["2022-03-14", "14-Mar-2022", "10 - 2", "-1", "now()", "a-b", "2022-03-14 - 1", "today()", "x", "1 + 1", "12.5 -7.5 0 0"]
+
+
+def c10_typed_default(t: int, d: int, in_repeat: bool, x0: int) -> bool:
+    """
+    vpre: 0 <= d <= 10
+    vpre: 33 <= x0 <= 126 and x0 != 36
+    vpost: _ == True
+    """
+    import pyxform.question as q_
+    import pyxform.survey_element as se_
+    import pyxform.utils as u_
+    import pyxform.xls2json as xj_
+
+    dflt = F_DEFAULTS[d]
+    rows = []
+    path = "/data"
+    if in_repeat:
+        rows.append({"type": "begin repeat", "name": "r", "label": "R"})
+        path += "/r"
+    rows.append({"type": F_TYPES[t], "name": "q", "label": "Q", "default": dflt})
+    rows.append({"type": "text", "name": "z", "label": "Z"})
+    if in_repeat:
+        rows.append({"type": "end repeat"})
+    path += "/q"
+    saved = (q_.default_is_dynamic, se_.default_is_dynamic, xj_.default_is_dynamic)
+    q_.default_is_dynamic = se_.default_is_dynamic = xj_.default_is_dynamic = u_.default_is_dynamic  # the real classifier (texts are concrete)
+    try:
+        survey, _w, _js = build_survey({"survey": rows})
+        root = survey.xml()
+    finally:
+        q_.default_is_dynamic, se_.default_is_dynamic, xj_.default_is_dynamic = saved
+    prim = child_elements(elements(root, "instance")[0])[0]
+    copies = elements(prim, "q")
+    svs = [e for e in elements(root) if e.tagName == "setvalue" and e.getAttribute("ref") == path]
+    literal = [c for c in copies if text_of(c) != ""]
+    if literal:
+        # static: every copy carries the literal, no action
+        return len(literal) == len(copies) and all(text_of(c) == dflt for c in copies) and not svs
+    # dynamic: exactly one action carrying the expression, instance nodes empty
+    return len(svs) == 1 and svs[0].getAttribute("value") == dflt
+
+
+specialise(
+    "C10",
+    "f.typed-defaults",
+    c10_typed_default,
+    {"t": list(range(len(F_TYPES)))},
+    reach_if=lambda fx: fx["t"] in (0, 9),
+    timeout=300,
+    kernel=K + ("pyxform.utils:default_is_dynamic",),
+    shims=("S1", "S2", "S3", "S4"),
+    symbolic="default text chosen by a symbolic index over 11 concrete texts (ISO dates, hyphenated non-ISO dates, arithmetic, negative numbers, function calls, geopoint literals), inside / outside a repeat (boolean)",
+    bounds="question type fixed per instance over 12 type cells incl. alias spellings (datetime, gps, location); the real default_is_dynamic and lexer run (texts concrete); the default is applied exactly once whatever its classification",
+    weight=30,
+)
